@@ -645,13 +645,21 @@ def canon(case, line):
 def nontrivial(case, impl):
     return case.count(";") >= 1 and ("b:" in impl) and nan_scope(case.split(" "))[0] > 0
 
-UNDO_OP = __import__("re").compile(r"^undo: op (\d+): ")
+UNDO_OP = __import__("re").compile(r"^undo: op (\d+): undo events (\[.*\]), expected (\[.*\]) \(old (-?\d+), stored (-?\d+)\)$")
+
+def wrap8(x):
+    return ((x + 128) % 256) - 128
 
 def classify(case, impl, failure):
     """arrayI-wide-element: the undo clause fails on an rArrayI port whose elements are wider
     than char (kind AIW) for a set that addresses an element holding a value outside
     -128..127 (= the negation of the side condition 'char_range old' of the rArrayI case of
-    numeric_set).  The stored value before the op is recomputed from the case."""
+    numeric_set, C14_undo_iff_partial) AND what was emitted is exactly what the narrowing
+    "char var" produces (C14_arrayI_wide_element_refuted): no event when (char)old equals the
+    new value, else the one event (address, (char)old, new).  An event at another address,
+    with another new value, a second event, or no event although (char)old differs from the
+    new value is not in the class.  The stored value before the op is recomputed from the case."""
+    import ast
     f = case.split(" ")
     m = UNDO_OP.match(failure)
     if not m or f[1] != "AIW":
@@ -664,9 +672,19 @@ def classify(case, impl, failure):
         st = stored_before(f, n)
         elem = int(ops[n][1:].partition("=")[0])
         old = st.vals[elem]
-    except (ValueError, IndexError):
+        new = st.clamp(ops[n][1:].partition("=")[2])
+        got, want = ast.literal_eval(m.group(2)), ast.literal_eval(m.group(3))
+    except (ValueError, IndexError, SyntaxError):
         return None
-    return "arrayI-wide-element" if not -128 <= old <= 127 else None
+    if -128 <= old <= 127 or new is None:
+        return None
+    # the message is the oracle's own (old, stored): it must agree with the replay of the case
+    if int(m.group(4)) != old or int(m.group(5)) != new or len(want) != 1:
+        return None
+    loc = want[0][0]
+    if wrap8(old) == new:
+        return "arrayI-wide-element" if got == [] else None
+    return "arrayI-wide-element" if got == [[loc, "%d" % wrap8(old), "%d" % new]] else None
 
 def minimise(case, impl, failure, run):
     """drop ops one at a time while some Spec failure of the same class remains"""
